@@ -3,7 +3,7 @@ CONSTANTS
   MaxSeq = 6
   MaxCrash = 3
   Guard = TRUE
-  Tiny = TRUE
-  Queued = FALSE
-  GenLen = 10
+  Tiny = FALSE
+  Queued = TRUE
+  GenLen = 14
 CHECK_DEADLOCK FALSE
